@@ -22,4 +22,15 @@ def run(tier):
             ctx.violation({"layer": "prog", "cases": [c], "implementation_answer": o,
                            "why": "a JoinHandle that was polled by one task and is then awaited by another never resolves: the completion wakes a task that no longer awaits it"})
     ctx.dist("probes.jhmove", len(probes))
+    # "polled again after any wake of its waker, whichever task issues the wake" presupposes that the executor's own leaf
+    # futures wake the waker they were polled with: each is awaited through a combinator that polls its child with a waker of
+    # its own and re-polls only after that waker fired (FuturesUnordered style), under exhaustive DFS
+    sub = ["tokprobe subwaker 0", "tokprobe subwaker 1", "tokprobe subwaker 5"]
+    so = ctx.run_impl("tok", sub)
+    ctx.evaluations += len(sub)
+    for c, o in zip(sub, so):
+        if not o.startswith("PROBE OK"):
+            ctx.violation({"layer": "tok", "cases": [c], "implementation_answer": o,
+                           "why": "a leaf future of the executor (yield_now / JoinHandle) awaited through a sub-waker combinator never completes: it does not wake the waker it was polled with"})
+    ctx.dist("probes.subwaker", len(sub))
     return ctx.finish()
